@@ -26,3 +26,17 @@ add(
     "Trusts vf/lang.py (environment-extension semantics) and its alpha-renaming helper (cross-checked: oracle(renamed)==oracle(original) on every case through the value comparison). One open known finding (lazy Approximate) is excluded by construction.",
     "DESIGN.md section 3 C05",
 )
+add(
+    "C03",
+    "property-based testing: generated ASTs x nests of interpretation contexts x reinterpreters (differential against eager and the reference evaluator), shards run under FUNSOR_USE_TCO/FUNSOR_TYPECHECK in {0,1}",
+    "Bounded exploration: every generated expression is built under a nest of 1-3 contexts from {lazy, reflect, normalize, memoize, sequential, moment_matching} (all 258 orders sampled) and reinterpreted with reinterpret/recursion_reinterpret/stack_reinterpret; the result must have the eager output domain, inputs among the expression's, and the oracle value at every point; memoize cache hits are re-derived.",
+    "Trusts vf/lang.py; FUNSOR_USE_TCO/FUNSOR_TYPECHECK are set per shard because funsor reads them at import.",
+    "DESIGN.md section 3 C03",
+)
+add(
+    "C06",
+    "enumeration of the op catalogue (op x operand domains x parameters, ~7600 entries; exhaustive in the thorough tier) + property-based testing of generated ASTs against the framework's typing rule",
+    "G1 runs every op that has a find_domain rule on arrays of each operand domain (rank 0-3, every axis/keepdims/index/offset/shape/equation) and compares shape, dtype class and integer range with find_domain. G2 checks on generated expressions that the reflect-built term declares exactly the predicted inputs/output, that eager evaluation keeps the output and a subset of inputs, and that tensor data has exactly the declared shape and range.",
+    "Trusts numpy as the reference for each op's result shape and the framework typing rule (vf/lang.py typeof). One open known finding (integer floordiv bound).",
+    "DESIGN.md section 3 C06",
+)
